@@ -5,11 +5,13 @@ package hlib
 import (
 	"bufio"
 	"bytes"
+	"context"
 	"encoding/json"
 	"flag"
 	"fmt"
 	"io"
 	"math/rand"
+	"net/http"
 	"os"
 	"sort"
 	"strconv"
@@ -306,4 +308,41 @@ func WriteVia(w io.Writer, data []byte, how int) {
 	default:
 		_, _ = io.Copy(w, struct{ io.Reader }{bytes.NewReader(data)})
 	}
+}
+
+// Abandoned returns the request with an already cancelled context when yes is true: a client that has gone away (or a
+// deadline that has passed) before the middleware looks at the request. No middleware decision depends on it.
+func Abandoned(req *http.Request, yes bool) *http.Request {
+	if !yes {
+		return req
+	}
+	ctx, cancel := context.WithCancel(req.Context())
+	cancel()
+	Count("requests_with_cancelled_context", 1)
+	return req.WithContext(ctx)
+}
+
+// Vary changes what no limiter, breaker or balancer decision depends on: the method, the protocol version the request
+// claims, and a few repeated or oddly spelled header lines (k selects the variation; k%6 == 0 leaves the request alone).
+func Vary(req *http.Request, k int) *http.Request {
+	if k < 0 {
+		k = -k
+	}
+	if k%6 == 0 {
+		return req
+	}
+	req.Method = []string{http.MethodGet, http.MethodPost, http.MethodHead, http.MethodOptions, http.MethodDelete, http.MethodPut}[k%6]
+	switch k % 4 {
+	case 1:
+		req.Proto, req.ProtoMajor, req.ProtoMinor = "HTTP/1.0", 1, 0
+	case 2:
+		req.Proto, req.ProtoMajor, req.ProtoMinor = "HTTP/2.0", 2, 0
+	}
+	req.Header["X-Noise"] = []string{"a", "b", "a"}
+	req.Header["x-lower-case"] = []string{"v"}
+	if k%5 == 0 {
+		req.Header.Set("Connection", "close")
+	}
+	Count("requests_varied_method_proto_headers", 1)
+	return req
 }
